@@ -170,7 +170,10 @@ fn av_text(v: AV) -> &'static str {
     match v {
         AV::Pushed => "s1",
         AV::Assigned(1) => "g1",
-        AV::Assigned(_) => "g2",
+        AV::Assigned(2) => "g2",
+        // value coincidences: 3 is the *integer* 1 (what a counter set to 1 holds), 4 is the text a pushed layer holds
+        AV::Assigned(3) => "<int 1>",
+        AV::Assigned(_) => "s1",
         AV::Data => "d0",
         _ => "",
     }
@@ -184,6 +187,7 @@ fn model_get(s: &Abs, path: &[&str]) -> Option<String> {
             Found::Missing => None,
             Found::Counter(c) => Some(format!("i:{c}")),
             Found::Val(AV::Obj) => Some("{k=i:1}".into()),
+            Found::Val(AV::Assigned(3)) => Some("i:1".into()),
             Found::Val(v) => Some(format!("s:{:?}", av_text(v))),
         };
     }
@@ -200,6 +204,13 @@ fn model_get(s: &Abs, path: &[&str]) -> Option<String> {
             "k" | "size" => Some("i:1".into()),
             _ => None,
         },
+        Found::Val(AV::Assigned(3)) => {
+            if path[1] == "size" {
+                Some("?".into())
+            } else {
+                None
+            }
+        }
         Found::Val(v) => {
             if path[1] == "size" {
                 Some(format!("i:{}", av_text(v).len()))
@@ -326,7 +337,8 @@ fn replay(rt: &dyn Runtime, actions: &[Action], pos: &mut usize, out: &mut Optio
             }
             Action::Pop => return Ret::Popped,
             Action::AssignGlobal(k, v) => {
-                rt.set_global(KString::from_static(NAMES[k]), Value::scalar(av_text(AV::Assigned(v))));
+                let val = if v == 3 { Value::scalar(1i64) } else { Value::scalar(av_text(AV::Assigned(v))) };
+                rt.set_global(KString::from_static(NAMES[k]), val);
                 continue;
             }
             Action::SetCounter(k, v) => {
@@ -402,7 +414,7 @@ impl StackModel {
             v.push(Action::Pop);
         }
         for k in 0..2 {
-            for val in [1u8, 2] {
+            for val in [1u8, 2, 3, 4] {
                 v.push(Action::AssignGlobal(k, val));
             }
         }
@@ -484,7 +496,7 @@ fn summarize<C: Checker<StackModel>>(checker: C) -> (u64, u64, u64, usize, Optio
 pub fn run(tier: Tier) -> i32 {
     let report = Report::new("C18", tier, "model_checking");
     let (max_layers, max_ops) = if tier.thorough() { (4, 6) } else { (3, 5) };
-    report.set_rule("explicit-state model: state = stack of pushed layers (plain / sandboxed / global, each over all 9 maps of 2 names x {absent, scalar, object}) + the builder's global map + counters + operation count; 28 actions (push plain/sandbox x 9 maps, push global, pop, assign-global x 4, set-counter x 4); every transition re-executes the whole history on the real RuntimeBuilder/StackFrame/SandboxedStackFrame/GlobalFrame types and compares get/try_get of every path of length 1..2 over {a,b,k,zz} x {a,b,k,size}, roots() and get_index with the model; states = unique abstract states, transitions = successor computations (each replayed), traces_validated = replays");
+    report.set_rule("explicit-state model: state = stack of pushed layers (plain / sandboxed / global, each over all 9 maps of 2 names x {absent, scalar, object}) + the builder's global map + counters + operation count; 32 actions (push plain/sandbox x 9 maps, push global, pop, assign-global x 8 incl. two value coincidences - the integer a counter holds and the text a pushed layer holds -, set-counter x 4); every transition re-executes the whole history on the real RuntimeBuilder/StackFrame/SandboxedStackFrame/GlobalFrame types and compares get/try_get of every path of length 1..2 over {a,b,k,zz} x {a,b,k,size}, roots() and get_index with the model; states = unique abstract states, transitions = successor computations (each replayed), traces_validated = replays");
     report.assume("state identity is the abstract state; sound because every transition proves the real observations are a function of it; guarded by an un-deduplicated enumeration of all operation sequences and by running BFS and DFS and comparing unique-state counts");
     let threads = crate::run::threads();
     let mut counts = Vec::new();
